@@ -394,7 +394,7 @@ func polQuery(w []string) (res string) {
 				parts = append(parts, src[:1]+ids(hs))
 			}
 		}
-	case "ppick":
+	case "ppick", "spick":
 		if e.part != "o" {
 			return "n/a"
 		}
@@ -499,7 +499,12 @@ func (g *polGen) queries(all bool) {
 			g.do(fmt.Sprintf("xprepl %d %s", k, ts), "xprepl/never-read/"+who+"/"+st)
 		}
 		if e.part == "o" && r.Intn(2) == 0 {
-			g.do(fmt.Sprintf("ppick %d %s", k, ts), "ppick")
+			// the REAL Pick (ordered partitioner: routing key = token): spec-backed under the same condition as prepl
+			if e.fresh[k] && !e.partBad {
+				g.do(fmt.Sprintf("spick %d %s", k, ts), "spick(spec)/"+who)
+			} else {
+				g.do(fmt.Sprintf("ppick %d %s", k, ts), "ppick/not-fresh")
+			}
 		}
 	}
 }
@@ -699,9 +704,9 @@ func (ru *run) polFixed() {
 	// session keyspace ks0, SimpleStrategy rf 2: a=10, b=30, then c=20 joins and b leaves while the schema is unreadable
 	seq("resetpol 0 1/1/1/1/10 2/2/1/1/30 3/3/1/1/20",
 		"psch 0 s:2", "pev add 0", "pev add 1", "pev part o", "pev kc 0",
-		"pfresh", "prepl 0 5 15 25 35", "ppick 0 5 15 25 35",
-		"psch 0 e", "pev add 2", "pfresh", "prepl 0 5 15 25 35", "ppick 0 5 15 25 35",
-		"pev rem 1", "prepl 0 5 15 25 35", "ppick 0 5 15 25 35",
+		"pfresh", "prepl 0 5 15 25 35", "spick 0 5 15 25 35",
+		"psch 0 e", "pev add 2", "pfresh", "prepl 0 5 15 25 35", "spick 0 5 15 25 35",
+		"pev rem 1", "prepl 0 5 15 25 35", "spick 0 5 15 25 35",
 		"psch 0 s:2", "pev kc 0", "prepl 0 5 15 25 35", "xprepl 0 5 15 25 35")
 	// the same with a partitioner change and a dropped keyspace notified by KeyspaceChanged
 	seq("resetpol 0 1/1/1/1/10 2/2/2/1/30 3/3/1/2/20",
